@@ -6,7 +6,7 @@ recover mode and its reports (fd 2) captured per call, and prints one line per c
     v <hex64>            result bit pattern (i32/f32 in the low 32 bits); `v -` for void
     ... m <fnv64>        appended in mode m: FNV-1a of the whole linear memory after the call
     sig <NAME>           the call raised a signal (ABRT = wat2c's trap convention: abort())
-    ub <class>           the undefined-behaviour sanitizer reported UB during the call (first report)
+    ub <class>           the undefined-behaviour sanitizer reported UB during the call (`ub trap`: check compiled as a trap instruction)
 In modes m / g the memory is reset to the pattern (and <prefix>_memory_size to the initial pages) before the call.
 The linear memory handed to the module by <prefix>_memory_init (the host hook appbuild's native-host.cpp provides)
 is an mmap'ed region between two PROT_NONE guard pages, filled with the same pattern the wazero side uses.
@@ -100,7 +100,8 @@ int main(void) {
     } else {
       alarm(0);
       const char *nm = s == SIGABRT ? "ABRT" : s == SIGFPE ? "FPE" : s == SIGSEGV ? "SEGV" : s == SIGILL ? "ILL" : s == SIGBUS ? "BUS" : s == SIGALRM ? "ALRM" : "OTHER";
-      OUTN = snprintf(OUT, sizeof OUT, "sig %%s", nm);
+      if (s == SIGILL) OUTN = snprintf(OUT, sizeof OUT, "ub trap");      /* sanitizer check compiled as a trap instruction */
+      else OUTN = snprintf(OUT, sizeof OUT, "sig %%s", nm);
     }
     off_t e1 = lseek(efd, 0, SEEK_END);
     if (e1 > e0) {   /* the sanitizer reported undefined behaviour during this call: that is the outcome */
@@ -144,9 +145,13 @@ FLAVOURS = {
 }
 
 
-def compile_c(workdir, flavour, out_name, sources=("mod.c", "driver.c")):
-    """returns (ok, compiler output)"""
-    cmd = FLAVOURS[flavour] + ["-o", out_name] + list(sources) + ["-lm"]
+TRAP_FLAGS = {"gcc": ["-fsanitize-undefined-trap-on-error"], "clang": ["-fsanitize-trap=undefined,float-cast-overflow"]}
+
+
+def compile_c(workdir, flavour, out_name, sources=("mod.c", "driver.c"), trap=False):
+    """returns (ok, compiler output).  trap=True: the sanitizer checks execute a trap instruction (SIGILL, caught by the driver and
+    printed as `ub trap`) instead of calling the runtime, which reports every source location only ONCE per process."""
+    cmd = FLAVOURS[flavour] + (TRAP_FLAGS[FLAVOURS[flavour][0]] if trap and "ubsan" in flavour else []) + ["-o", out_name] + list(sources) + ["-lm"]
     p = subprocess.run(cmd, cwd=workdir, stdout=subprocess.PIPE, stderr=subprocess.STDOUT, text=True, timeout=600)
     return p.returncode == 0, p.stdout
 
